@@ -191,8 +191,8 @@ def run_one(d, m):
             res["by"], res["signature"] = caught
             return res
         res["inconclusive"] = inconcl
-        t = sh(f"cd {repo} && CARGO_NET_OFFLINE=true cargo test --workspace --no-fail-fast --offline 2>&1 | grep -E '^test result|FAILED|failed|error' | head -8", timeout=1800)
-        failed = bool(re.search(r"FAILED|failed|error", t.stdout))
+        t = sh(f"cd {repo} && CARGO_NET_OFFLINE=true cargo test --workspace --no-fail-fast --offline > test.log.tmp 2>&1; echo rc=$?; grep -E '^test result|^test .* FAILED|^error' test.log.tmp | head -8; rm -f test.log.tmp", timeout=1800)
+        failed = "rc=0" not in t.stdout
         res["outcome"] = "survived-checks+killed-by-tests" if failed else ("inconclusive-only" if inconcl else "survived-both")
         res["tests"] = t.stdout.strip().splitlines()[:4]
         return res
